@@ -43,10 +43,12 @@ RULE = ('case = (workbook spec or the reference-form catalogue, environment '
 ASSUMPTIONS = ['written (non-computed) references only']
 MIN_NONTRIVIAL = {'quick': 150, 'thorough': 3000}
 
+IN = wbspec.INSHEET
+QIN = wbspec.q(IN)
 CATALOGUE = {
     'A5': '=B1',
     'B5': '=$B$1+B$2+$B3',
-    'C5': '=S!C1+In!A1',
+    'C5': f'=S!C1+{QIN}!A1',
     'D5': "='T 2'!A1+1",
     'A6': '=SUM(A1:D3)',
     'B6': '=SUM(S!$A$1:$B$2)',
@@ -56,8 +58,8 @@ CATALOGUE = {
     'B7': '=SUM(first_row)',
     'C7': '=one_cell*2',
     'D7': '=SUM(two_areas)',
-    'A8': '=SUM(In!A:A)',
-    'B8': '=COUNT(In!1:1)+MAX(In!A:B)',
+    'A8': f'=SUM({QIN}!A:A)',
+    'B8': f'=COUNT({QIN}!1:1)+MAX({QIN}!A:B)',
     'C8': '=ROW(C2)+COLUMN(C2)+ROW()+COLUMN()',
     'D8': '=INDEX(A1:D3,2,3)',
     'A9': '=SUM(INDEX(A1:D3,0,2))',
@@ -85,13 +87,13 @@ def catalogue_spec(env, in_env):
                'B1': in_env[3], 'B2': in_env[4], 'B3': 1}
     formulas = [f'S!{c}' for c in CATALOGUE] + ['S!A12', 'S!B12', 'T 2!A1']
     return dict(
-        sheets={'In': insheet, 'S': cells, 'T 2': {'A1': '=S!A1*2'}},
+        sheets={IN: insheet, 'S': cells, 'T 2': {'A1': '=S!A1*2'}},
         arrays=[CATALOGUE_ARRAY],
         names={'one_cell': 'S!$A$1', 'first_row': 'S!$A$1:$D$1',
-               'two_areas': 'S!$A$1:$B$1,In!$A$1:$A$2'},
+               'two_areas': f'S!$A$1:$B$1,{QIN}!$A$1:$A$2'},
         active='S',
         inputs=[f'S!{c}{r}' for r in (1, 2, 3) for c in 'ABCD'] +
-               ['In!A1', 'In!A2', 'In!A3', 'In!B1', 'In!B2'],
+               [f'{IN}!A1', f'{IN}!A2', f'{IN}!A3', f'{IN}!B1', f'{IN}!B2'],
         formulas=formulas, ranges=[])
 
 
